@@ -385,7 +385,7 @@ impl Scheduler {
         debug_assert!(queue.core.lock().expect("JobQueue core lock").state.is_running());
 
         // Set the queue as active
-        let _active = ActiveQueue { queue: &*queue };
+        let _active = ActiveQueue::new(&*queue);
 
         // Call the function to get the result
         let result = job();
@@ -406,7 +406,7 @@ impl Scheduler {
         debug_assert!(queue.core.lock().expect("JobQueue core lock").state.is_running());
 
         // Set the queue as active
-        let _active = ActiveQueue { queue: &*queue };
+        let _active = ActiveQueue::new(&*queue);
 
         // When the task runs on the queue, we'll put it here
         let result = Arc::new((Mutex::new(None), Condvar::new()));
@@ -504,7 +504,7 @@ impl Scheduler {
 
                     if self.core.claim_pending_queue(queue) {
                         // We're now running the queue (so it must be marked as panicked if one of its jobs panics while we're running it)
-                        let _active = ActiveQueue { queue: &*queue };
+                        let _active = ActiveQueue::new(&*queue);
 
                         // Try to run jobs on it until it's ready
                         while !*ready_mutex.lock().unwrap() {
